@@ -217,8 +217,27 @@ def p7_archetype_tables(prog):
     shrink_to_fit every erase comes after both purge loops, only empty archetypes are scheduled for
     erasure, and each scheduled archetype's identifier is scheduled for purging."""
     r = Result()
+    til0 = adt_field_index(prog, 'archetypes::Archetypes', 'type_id_lookup')
+
+    def touches_til(f):
+        # a place `<Archetypes>.type_id_lookup` anywhere in the function or its closures (type-checked projection)
+        for g in [f] + f.closures():
+            for b_, i_, s_ in g.body.stmts():
+                if s_['k'] != 'assign':
+                    continue
+                for pl in ([s_['rv'].get('place')] if s_['rv'].get('place') else []) + [s_['place']]:
+                    for j, e in enumerate(pl['p']):
+                        if isinstance(e, dict) and e.get('f') == til0:
+                            base = peel_refs(g.body.place_ty({'l': pl['l'], 'p': pl['p'][:j]}))
+                            if base is not None and is_adt(base, 'archetypes::Archetypes'):
+                                return True
+        return False
     for f in prog.fns.values():
-        if not (f.path.startswith('archetypes::Archetypes::<R>::') and f.kind == 'AssocFn'):
+        if f.kind == 'Closure':
+            continue
+        own = f.path.startswith('archetypes::Archetypes::<R>::') and f.kind == 'AssocFn'
+        # the table protocol is checked wherever the tables are touched (a step moved to a caller stays in view)
+        if not own and not touches_til(f):
             continue
         body = f.body
         RAW_INS = ('insert', 'insert_entry', 'insert_no_grow', 'insert_in_slot')
@@ -245,12 +264,11 @@ def p7_archetype_tables(prog):
         # (b) every value written into type_id_lookup (insert or extend) is the identifier of the archetype just
         #     found/inserted, or its image under an identifier map
         til = adt_field_index(prog, 'archetypes::Archetypes', 'type_id_lookup')
-        mentions_til = any(isinstance(e, dict) and e.get('f') == til for g in [f] + f.closures() for b_, i_, s_ in g.body.stmts() if s_['k'] == 'assign'
-                           for pl in ([s_['rv'].get('place')] if s_['rv'].get('place') else []) for e in pl['p'])
+        mentions_til = touches_til(f)
         if mentions_til and f.name not in ('shrink_to_fit', 'new', 'with_capacity', 'eq', 'fmt', 'drop'):
             E = pathsem.analyse(prog, f, max_paths=30000)
             S = pathsem.strip_refs
-            key = 'Archetypes::%s/type-id-insert' % f.name
+            key = ('Archetypes::%s/type-id-insert' % f.name) if own else ('%s/type-id-insert' % f.path.split('<')[0][:60] + f.name)
             vals = []
             for p in E.paths:
                 for e in p.calls(lambda e: 'HashMap' in e['path'] and e['name'] in ('insert', 'insert_unique_unchecked') and len(e['args']) >= 3 and pathsem.is_field_of(e['args'][0], 'archetypes::Archetypes', til)):
